@@ -104,6 +104,19 @@ def shape_cases(names=None, seeds=(0, 1, 2), cfgs=None, slow_variants=True) -> l
         for k, s in enumerate(seeds):
             cfg = cfgs[k % len(cfgs)]
             cases.append({"tid": f"shape-{name}-{s}", "project": proj, "phases": history(proj, cfg, s, [])})
+        # histories the shape spells out itself: a list of phases after the first build, each a list of edits or
+        # {"edits": [...], "cfg": {...}} when the invocation changes too (targets, keep-going, ...)
+        for k, hist in enumerate(proj.get("extra_histories", [])):
+            cfg = dict(cfgs[k % len(cfgs)], **proj.get("cfg", {}))
+            ph0 = initial_phase(proj, cfg=cfg, seed=seeds[0] + k)
+            first = hist[0] if hist else []
+            ph0["edits"] = list(ph0["edits"]) + list(first["edits"] if isinstance(first, dict) else first)
+            phases = [ph0]
+            for j, item in enumerate(hist[1:]):
+                edits = item["edits"] if isinstance(item, dict) else item
+                cfgj = dict(cfg, **item.get("cfg", {})) if isinstance(item, dict) else cfg
+                phases.append({"edits": list(edits), "how": "restart", "cfg": cfgj, "seed": seeds[0] + 30 + j})
+            cases.append({"tid": f"shape-{name}-x{k}", "project": proj, "phases": phases})
         if slow_variants:
             # "this step is slow" schedules: the operations of one command are released only when
             # nothing else can move (delay-rank schedules)
